@@ -515,6 +515,18 @@ theorem modes_agree_aux (w : World) (cfg : Cfg) :
               · simp [hx, Res.toOption]
           · simp [hg, Res.toOption]
         | _ => simp only [stD, stF]; split <;> rfl
+      | union cs hn =>
+        rw [stD_union, stF_union]
+        cases hp : unionPick w cs hn o with
+        | ok k =>
+          simp only []
+          by_cases hk : k ∈ cs
+          · simp only [hk, if_true]
+            exact ihm (.cls k) o ho (by have := sizeOf_cls_lt_union hk hn; omega)
+          · simp [hk, Res.toOption]
+        | none => simp [Res.toOption]
+        | refuseCreate => simp [Res.toOption]
+        | refuseResolve => simp [Res.toOption]
 
 theorem modes_agree (w : World) (cfg : Cfg) (t : Ty) (o : Obj) :
     Res.toOption (stD w cfg t o) = stF w cfg t o :=
